@@ -32,6 +32,8 @@ var edgeTexts = []string{
 	"true false", "truefalse", "true:", "nil", "(a:b:c)", "a::b", "::", ":=", ":==", "=:", "a=b", "a==b", "<=", ">=", "a<=b", "a<b>c",
 	"é", "(é \"é\" 'é')", "a\tb", "a\rb", "\x00", "a\x00b", "x y\n", "(a . b)", "0x", "0xg", "1a", "1.", "1.e5", "1e5.", "1__2", "_1", "-_1", "--1", "- 1", "-1-1", "1-1", "(1)-1", "[1]-1", "a,-1", "a;-1", "a:-1", "\"s\"-1", "`s`-1", "'c'-1", "}-1", "{-1}", "=-1", "!-1",
 	"{ { // c\n }", "{ //c\n}", "{ /* c */ }", "({ // c\n} x)", "{ { /* c */ } a }", "{ { // c\n } }",
+	"% /* c */ a", "%// c\na", "^(a ~ /* c */ x)", "(a ~@ // c\n b)", "~ /* c */", "% // c", "%/* c */", "(a % /* c */)", "^ /* a */ /* b */ // c\n x", "(% /* c\nd */ a)",
+	"[~ // c\n]", "{% /* c */ a}", "% /* c */ /* d", "~@/**/x", "%/***/x", "^//\nx", "(a \\ % /* c */ b)",
 	"(quote a)", "%%a", "%~a", "^^a", "~~a", "~@~a", "%", "(%)", "[%]", "{%}", "[a %", "{a %", "(a ^", "(a ~@", "(a ~", "(a %\n b)", "(def x %\n  (1 2 3))",
 }
 
@@ -118,7 +120,12 @@ func genExpr(r *lib.Rng, depth int) string {
 		sb.WriteString("}")
 		return sb.String()
 	case 7:
-		return pick(r, []string{"%", "^", "~", "~@", "% ", "~ "}) + genExpr(r, depth-1)
+		pre := pick(r, []string{"%", "^", "~", "~@", "% ", "~ "})
+		if r.Intn(3) == 0 {
+			// comments between the prefix and its form are skipped
+			pre += pick(r, []string{"/* c */", " /* c */ ", "// c\n", " /* a\nb */ ", "/**/", " // c\n // d\n", "/* a *//* b */"})
+		}
+		return pre + genExpr(r, depth-1)
 	case 8:
 		return "(" + genExpr(r, depth-1) + " \\ " + genExpr(r, depth-1) + ")"
 	case 9:
@@ -213,7 +220,7 @@ var replEntries = []string{
 	"(x /* \n * doc\n *\n **/ y)", "(a \"b\\\n\nc\")", "(a\n;\n\nb)", "(a,\n\n,b)", "(a:\n\n1)", "(a :=\n\n1)", "(1e\n-5)", "(ab\ncd)", "(a \"b\n   c\" `d\n   e`)",
 }
 
-var replItems = []string{"a", "b1", "42", "-1", "1.5", "\"s\"", "\"p\n\nq\"", "\"p\n  \nq\"", "\"\n\"", "`r`", "`x\n\ny`", "`x\n \t\ny`", "`\n\n`",
+var replItems = []string{"% /* c */ a", "~ // c\n b", "^/* c\n\n d */x", "a", "b1", "42", "-1", "1.5", "\"s\"", "\"p\n\nq\"", "\"p\n  \nq\"", "\"\n\"", "`r`", "`x\n\ny`", "`x\n \t\ny`", "`\n\n`",
 	"/* c */", "/* c\n\n d */", "/* c\n   \n d */", "// c\n", "%a", "~b", "^(q ~r)", "(a b)", "[1 2]", "{k:1}", "{x + 1}", "'c'", "k:", ":=", "-", "+", "(a \\ b)", "nil", "true"}
 var replSeps = []string{" ", " ", "\n", "\n", "\n\n", "\n  \n", "\n\t\n", "\n\n\n", "  ", " \n "}
 
